@@ -222,6 +222,10 @@ struct WatchState {
     limit: Duration,
     out: PathBuf,
     hang_dir: PathBuf,
+    cur_path: PathBuf,
+    partial_path: PathBuf,
+    last_partial: Instant,
+    last_partial_violations: usize,
 }
 
 static WATCH: std::sync::Mutex<Option<WatchState>> = std::sync::Mutex::new(None);
@@ -234,7 +238,7 @@ pub const EXIT_WATCHDOG: i32 = 77;
 /// EXIT_WATCHDOG after the last snapshot of the results has been written; the orchestrator
 /// restarts the shard at the next case. Expiry is recorded as inconclusive, never a violation.
 pub fn start_watchdog(ctx: &ShardCtx, out: &Path, limit: Duration) {
-    *WATCH.lock().unwrap() = Some(WatchState { started: None, index: 0, desc: String::new(), snapshot: None, limit, out: out.to_path_buf(), hang_dir: work_dir("hangs") });
+    *WATCH.lock().unwrap() = Some(WatchState { started: None, index: 0, desc: String::new(), snapshot: None, limit, out: out.to_path_buf(), hang_dir: work_dir("hangs"), cur_path: work_dir(&ctx.prop).join(format!("shard{}.current", ctx.shard)), partial_path: work_dir(&ctx.prop).join(format!("shard{}.partial.json", ctx.shard)), last_partial: Instant::now(), last_partial_violations: 0 });
     let prop = ctx.prop.clone();
     let shard = ctx.shard;
     std::thread::spawn(move || loop {
@@ -271,6 +275,15 @@ impl ShardCtx {
             w.index = index;
             w.desc = desc.to_string();
             w.snapshot = Some(res.clone());
+            // crash journal: which case is in flight, and (every few seconds or whenever a new
+            // violation was recorded) everything observed so far; read by the orchestrator when
+            // the process dies (stack overflow, abort, kill)
+            let _ = std::fs::write(&w.cur_path, format!("{index}\n{desc}"));
+            if w.last_partial.elapsed() > Duration::from_secs(3) || res.violations.len() != w.last_partial_violations {
+                let _ = std::fs::write(&w.partial_path, serde_json::to_string(res).unwrap());
+                w.last_partial = Instant::now();
+                w.last_partial_violations = res.violations.len();
+            }
         }
     }
     pub fn end_case(&self) {
@@ -500,7 +513,12 @@ fn spawn_shard(prop: &str, tier: Tier, seed: u64, shard: u64, nshards: u64, budg
 
 /// Run `nshards` shard processes; a shard that stops at a per-case watchdog expiry
 /// (EXIT_WATCHDOG) is restarted at the next case for the rest of its budget.
-pub fn run_sharded(prop: &str, tier: Tier, seed: u64, nshards: u64, budget: Duration, mem_limit_gib: u64) -> ShardResult {
+/// A shard that dies (signal) is restarted after the case that was in flight; `crash_policy`
+/// (description of the case in flight, tail of the shard's log) may turn the death into a
+/// violation - otherwise it is recorded as inconclusive.
+pub type CrashPolicy = fn(&str, &str) -> Option<(String, String, Value)>;
+
+pub fn run_sharded(prop: &str, tier: Tier, seed: u64, nshards: u64, budget: Duration, mem_limit_gib: u64, crash_policy: Option<CrashPolicy>) -> ShardResult {
     let wd = work_dir(prop);
     clean_dir(&wd);
     let start = Instant::now();
@@ -552,7 +570,9 @@ pub fn run_sharded(prop: &str, tier: Tier, seed: u64, nshards: u64, budget: Dura
                 (st, partial) => {
                     // the shard died (abort, memory limit, stack overflow) or hit the shard watchdog
                     let cur = std::fs::read_to_string(wd.join(format!("shard{}.current", r.shard))).unwrap_or_default();
-                    total.inconclusive(format!("shard {} ended abnormally ({st:?}); case in flight: {}", r.shard, cur.chars().take(300).collect::<String>()));
+                    let (idx_line, desc) = cur.split_once('\n').unwrap_or(("", ""));
+                    let idx: Option<u64> = idx_line.trim().parse().ok();
+                    let log_tail = std::fs::read(wd.join(format!("shard{}.log", r.shard))).map(|b| String::from_utf8_lossy(&b[b.len().saturating_sub(1500)..]).to_string()).unwrap_or_default();
                     total.count("shards_crashed");
                     if let Some(res) = partial {
                         total.merge(res);
@@ -561,80 +581,24 @@ pub fn run_sharded(prop: &str, tier: Tier, seed: u64, nshards: u64, budget: Dura
                             total.merge(res);
                         }
                     }
+                    let _ = std::fs::remove_file(wd.join(format!("shard{}.partial.json", r.shard)));
+                    let crash_file = work_dir("crashes").join(format!("{prop}_shard{}_case{}.txt", r.shard, idx.map(|i| i.to_string()).unwrap_or_else(|| "unknown".into())));
+                    let _ = std::fs::write(&crash_file, desc);
+                    match crash_policy.and_then(|p| if st.is_some() && !desc.is_empty() { p(desc, &log_tail) } else { None }) {
+                        Some((sig, descr, replay)) => total.violation(sig, descr, replay),
+                        None => total.inconclusive(format!("shard {} ended abnormally ({st:?}); case in flight saved to {}: {}", r.shard, crash_file.display(), desc.chars().take(200).collect::<String>())),
+                    }
+                    let left = budget.checked_sub(start.elapsed()).unwrap_or_default();
+                    if let (Some(idx), true) = (idx, st.is_some() && left > Duration::from_secs(5) && r.attempt < 50) {
+                        let (child, out) = spawn_shard(prop, tier, seed, r.shard, nshards, left, mem_limit_gib, idx + 1, r.attempt + 1);
+                        still.push(Running { shard: r.shard, child, out, attempt: r.attempt + 1 });
+                    }
                 }
             }
         }
         running = still;
     }
     total.resume_at = None;
-    total
-}
-
-#[allow(dead_code)]
-fn run_sharded_old(prop: &str, tier: Tier, seed: u64, nshards: u64, budget: Duration, mem_limit_gib: u64) -> ShardResult {
-    let exe = std::env::current_exe().expect("current_exe");
-    let wd = work_dir(prop);
-    clean_dir(&wd);
-    let mut children = vec![];
-    for shard in 0..nshards {
-        let out = wd.join(format!("shard{shard}.result.json"));
-        let log = std::fs::File::create(wd.join(format!("shard{shard}.log"))).unwrap();
-        let log2 = log.try_clone().unwrap();
-        let mut cmd = std::process::Command::new(&exe);
-        cmd.arg("shard")
-            .arg(prop)
-            .arg(tier.name())
-            .arg(seed.to_string())
-            .arg(shard.to_string())
-            .arg(nshards.to_string())
-            .arg(budget.as_millis().to_string())
-            .arg(&out)
-            .env("SWVERIF_MEM_GIB", mem_limit_gib.to_string())
-            .stdout(log)
-            .stderr(log2)
-            .stdin(std::process::Stdio::null());
-        let child = cmd.spawn().expect("spawn shard");
-        children.push((shard, child, out));
-    }
-    let mut total = ShardResult::default();
-    let watchdog = budget * 6 + Duration::from_secs(900);
-    let start = Instant::now();
-    for (shard, mut child, out) in children {
-        // generous wall-clock watchdog: expiry => inconclusive, never a violation
-        let status = loop {
-            match child.try_wait() {
-                Ok(Some(st)) => break Some(st),
-                Ok(None) => {
-                    if start.elapsed() > watchdog {
-                        let _ = child.kill();
-                        let _ = child.wait();
-                        break None;
-                    }
-                    std::thread::sleep(Duration::from_millis(50));
-                }
-                Err(_) => break None,
-            }
-        };
-        let parsed: Option<ShardResult> = std::fs::read_to_string(&out).ok().and_then(|s| serde_json::from_str(&s).ok());
-        match (status, parsed) {
-            (Some(st), Some(r)) if st.success() => total.merge(r),
-            (st, partial) => {
-                // the shard died (abort, OOM limit, stack overflow) or hit the watchdog
-                let cur = std::fs::read_to_string(wd.join(format!("shard{shard}.current"))).unwrap_or_default();
-                total.inconclusive(format!("shard {shard} ended abnormally ({st:?}); case in flight: {}", cur.chars().take(300).collect::<String>()));
-                total.count("shards_crashed");
-                if let Some(r) = partial {
-                    total.merge(r);
-                }
-                // journal of partial results, if any
-                if let Ok(s) = std::fs::read_to_string(wd.join(format!("shard{shard}.partial.json"))) {
-                    if let Ok(r) = serde_json::from_str::<ShardResult>(&s) {
-                        total.merge(r);
-                    }
-                }
-            }
-        }
-    }
     total
 }
 
